@@ -128,6 +128,16 @@ func (e *EmptyDataProvider) GetUnderlying() any {
 	return e.Underlying
 }
 
+// mapProviderOf wraps the map x as a provider. x may be of a named map type (type H map[string]any): it has the same
+// kind as the unnamed type but cannot be type-asserted to it, so it is converted first (or rejected, never a panic).
+func mapProviderOf[T any](x reflect.Value, val any) (DataProvider, error) {
+	target := reflect.TypeOf(map[string]T(nil))
+	if !x.Type().ConvertibleTo(target) {
+		return &EmptyDataProvider{Underlying: val}, fmt.Errorf("could not convert %s to a data provider", x.Type().String())
+	}
+	return NewSafeMapDataProvider(x.Convert(target).Interface().(map[string]T)), nil
+}
+
 func TryNewAnyDataProvider(val any) (DataProvider, error) {
 	dp, ok := val.(DataProvider)
 	if ok {
@@ -149,15 +159,15 @@ func TryNewAnyDataProvider(val any) (DataProvider, error) {
 
 		switch valTyp.Kind() { // TODO: add more types
 		case reflect.String:
-			return NewSafeMapDataProvider(x.Interface().(map[string]string)), nil
+			return mapProviderOf[string](x, val)
 		case reflect.Int:
-			return NewSafeMapDataProvider(x.Interface().(map[string]int)), nil
+			return mapProviderOf[int](x, val)
 		case reflect.Float64:
-			return NewSafeMapDataProvider(x.Interface().(map[string]float64)), nil
+			return mapProviderOf[float64](x, val)
 		case reflect.Bool:
-			return NewSafeMapDataProvider(x.Interface().(map[string]bool)), nil
+			return mapProviderOf[bool](x, val)
 		case reflect.Interface:
-			return NewSafeMapDataProvider(x.Interface().(map[string]any)), nil
+			return mapProviderOf[any](x, val)
 		default:
 			return &EmptyDataProvider{Underlying: val}, fmt.Errorf("could not convert map[string]%s to a data provider", valTyp.String())
 		}
